@@ -200,13 +200,24 @@ def main():
                               ("exp_const2", Z.create_exp_extrapolate_with_const(2, k2), long_sfs),
                               ("exp_const_log1_below", Z.create_exp_extrapolate_with_const_log(1, k1), [1, 2, 3]),
                               ("exp_const_log1_above", Z.create_exp_extrapolate_with_const_log(1, k2), [1, 2, 3]),
-                              ("exp_const_log2_zero", Z.create_exp_extrapolate_with_const_log(2, 0.0), long_sfs)]
+                              ("exp_const_log2_zero", Z.create_exp_extrapolate_with_const_log(2, 0.0), long_sfs),
+                              # fewer scale factors than the fit has coefficients: the fit is not determined - an error
+                              # (ValueError) is the right answer, a value must still be the exact one
+                              ("underdetermined_poly3", Z.create_polynomial_extrapolate(3), [1, 3]),
+                              ("underdetermined_poly2", Z.create_polynomial_extrapolate(2), [1, 2])]
             for mname in sorted(methods):
                 for ex_name, ex, sfs in extrapolations:
                     zest = Z.create_zne_estimator(est, sfs, ex, methods[mname])
                     res.count(("zne", mname, ex_name, tuple(map(str, describe(c)))), bucket="zne:" + ex_name.split("_")[0])
                     try:
                         v = zest(op, GeneralCircuitQuantumState(n, c)).value
+                    except ValueError as e:
+                        if ex_name.startswith("underdetermined"):
+                            res.count(("zne", ex_name, "rejected"), nontrivial=False, bucket="zne:underdetermined_rejected")
+                            continue
+                        res.fail(f"crash:zne:{ex_name}:{mname}", f"ValueError: {str(e)[:160]} (exact value {exact})",
+                                 {"circuit": describe(c), "scale_factors": sfs})
+                        continue
                     except Exception as e:  # noqa: BLE001
                         res.fail(f"crash:zne:{ex_name}:{mname}", f"{type(e).__name__}: {str(e)[:160]} (exact value {exact})",
                                  {"circuit": describe(c), "scale_factors": sfs})
